@@ -157,7 +157,7 @@ Definition es_compare (a b : value) : option comparison :=
   match to_primitive_spec a, to_primitive_spec b with
   | Str x, Str y => Some (if str_ltb x y then Lt else if str_eqb x y then Eq else Gt)
   | p, q => match es_to_number p, es_to_number q with
-            | Some x, Some y => SFcompare x y
+            | Some x, Some y => f64_compare x y
             | _, _ => None
             end
   end.
